@@ -340,6 +340,12 @@ func (m *BigMap) Delete(key Object) (Map, bool) {
 	return m, true
 }
 
+// Clone returns a BigMap with its own copy of the pairs. A *BigMap is shared by every binding
+// that holds it and Set/Delete mutate in place: callers that must not affect other holders clone first.
+func (m *BigMap) Clone() *BigMap {
+	return &BigMap{kv: slices.Clone(m.kv)}
+}
+
 func NewMapSize(size int) Map {
 	if size <= MaxSmallMap {
 		return SmallMap{}
